@@ -254,7 +254,6 @@ class SimFS:
         self.fault = fault
         self.dead = False
         self.full = False
-        self._open_files = set()
 
     def disarm(self):
         self.armed = False
